@@ -192,6 +192,10 @@ class Ellipse:
                                              pa=np.pi / 2)
         self.set_threshold(threshold)
 
+        # the fixed-parameter flags of the input geometry; they are
+        # restored by each fit_image call that does not override them
+        self._geometry_fix = np.array(self._geometry.fix)
+
     def set_threshold(self, threshold):
         """
         Modify the threshold value used by the centerer.
@@ -402,9 +406,11 @@ class Ellipse:
                           AstropyUserWarning)
             return IsophoteList([])
         if fix_center or fix_pa or fix_eps:
-            # Note that this overrides the geometry instance for good.
             self._geometry.fix = np.array([fix_center, fix_center, fix_pa,
                                            fix_eps])
+        else:
+            # do not carry over the flags of an earlier fit_image call
+            self._geometry.fix = self._geometry_fix.copy()
 
         # first, go from initial sma outwards until
         # hitting one of several stopping criteria.
